@@ -34,6 +34,9 @@ Definition srmon_step (ign : nat -> bool) (rand : bool) (m : srmon) (st : srstep
                 let local := match sm_from msg with None => true | Some _ => false end in
                 if memb (sm_id msg) (sr_seen s) || (negb local && negb (memb (sm_topic msg) (sr_joined s))) then s
                 else {| sr_peers := sr_peers s; sr_tmap := sr_tmap s; sr_joined := sr_joined s; sr_seen := sadd (sm_id msg) (sr_seen s) |}
+            | RLocalOnly msg =>
+                if memb (sm_id msg) (sr_seen s) then s
+                else {| sr_peers := sr_peers s; sr_tmap := sr_tmap s; sr_joined := sr_joined s; sr_seen := sadd (sm_id msg) (sr_seen s) |}
             | o => match srstep rand 0 s o with Some (x, _, _) => x | None => s end
             end in
   let v06 :=
@@ -49,6 +52,9 @@ Definition srmon_step (ign : nat -> bool) (rand : bool) (m : srmon) (st : srstep
         else if hit 63 (accepted && negb rand && existsb (fun p => has_q s p && negb (sexcl msg p) && negb (memb p R)) tm) then Some 63
         else if hit 64 (accepted && rand && existsb (fun p => has_q s p && is_fs s p && negb (sexcl msg p) && negb (memb p R)) tm) then Some 64
         else None
+    | RLocalOnly _ =>
+        (* a local-only publication is sent to nobody, whatever the router *)
+        if hit 65 (negb (match sp_out st with [] => true | _ => false end) || negb (match sp_rpcs st with [] => true | _ => false end)) then Some 65 else None
     | _ => None
     end in
   let v19 :=
@@ -60,11 +66,13 @@ Definition srmon_step (ign : nat -> bool) (rand : bool) (m : srmon) (st : srstep
                 let local := match sm_from msg with None => true | Some _ => false end in
                 let accepted := negb (memb (sm_id msg) (sr_seen s)) && (local || memb (sm_topic msg) (sr_joined s)) in
                 negb (seteq delivered_now (if accepted then [sm_id msg] else []))
+            | RLocalOnly msg => negb (seteq delivered_now (if memb (sm_id msg) (sr_seen s) then [] else [sm_id msg]))
             | _ => negb (match delivered_now with [] => true | _ => false end) end) then Some 196
     else if hit 194 (match sp_op st with
             | RMsg msg _ => match sm_from msg with
                             | None => negb (match published_now with [i] => Nat.eqb i (sm_id msg) | _ => false end)
                             | Some _ => negb (match published_now with [] => true | _ => false end) end
+            | RLocalOnly msg => negb (match published_now with [i] => Nat.eqb i (sm_id msg) | _ => false end)
             | _ => negb (match published_now with [] => true | _ => false end) end) then Some 194
     else if hit 195 (negb (tevs_eqb (filter (fun x => match x with TSend _ | TDrop _ => true | _ => false end) tr) (map TSend (sp_rpcs st)))) then Some 195
     else None in
